@@ -354,6 +354,20 @@ pub fn c18(cx: &Ctx) -> (Vec<Violation>, Cover) {
             }
         }
     }
+    // ... and leaves all other registrations working: dispatch exactness after the first stale operation
+    if cov.relevant {
+        let first_stale = cx.dels.iter().filter(|d| d.target_dead).map(|d| d.pre).min();
+        if let Some(fs) = first_stale {
+            for d in super::dispatch_mon::discrepancies(cx).iter().filter(|d| d.pos > fs) {
+                v.push(Violation::new(
+                    "C18",
+                    format!("C18/other-registrations-broken/{:?}/{}", d.kind, if d.extra { "extra" } else { "missing" }),
+                    format!("after a stale operation at {fs}: instance {} ran {}x, expected {}..{}: {}", d.inst, d.observed, d.lo, d.hi, d.detail),
+                    d.pos,
+                ));
+            }
+        }
+    }
     // the framework is clean afterwards
     if cov.relevant {
         for o in a.ops.iter() {
